@@ -17,4 +17,4 @@ run_one() {
   if [ -n "$res" ]; then echo "$(basename $d): FALSE ALARM $res"; return 1; else echo "$(basename $d): all 20 checks silent"; return 0; fi
 }
 export -f run_one; export V
-ls ${@:-$V/selftest/benign/*.diff} | xargs -n1 readlink -f | xargs -P ${BENIGN_JOBS:-6} -I{} bash -c 'run_one {}' | sort
+ls ${@:-$V/selftest/benign/*.diff} | xargs -n1 readlink -f | xargs -P ${BENIGN_JOBS:-6} -I{} bash -c 'run_one {}' | if [ -n "$BENIGN_STREAM" ]; then cat; else sort; fi
